@@ -94,3 +94,10 @@ Example C14_example :
   walk current current_consts c is_email (real_actions current_consts c None) (MQ false false MNil [])
        (JObj [("ssn", JStr "123-45-6789")]) = JObj [("ssn", JStr "REDACTED")].
 Proof. vm_compute. repeat split; try reflexivity; intros; discriminate. Qed.
+
+(* no bare-word entry at the top level of the tables that are consulted for every key: a user field is never
+   exempted because of its NAME (obligation on the regenerated tables) *)
+From Spec Require TablesOK.
+Theorem C14_no_bare_word_exemption : TablesOK.tables_ok_bare current = true.
+Proof. vm_compute. reflexivity. Qed.
+Print Assumptions C14_no_bare_word_exemption.
